@@ -59,13 +59,14 @@ class FakeQueue:
 cv = contextvars.ContextVar("c14", default=-1)
 
 
-def scn(sym, cov, n, funcs, cancel=None, abandon=False, eager=False, T=1, J=2, precancel=False, RJ=1, shielded_caller=False, cancel_outside_shield=False):
+def scn(sym, cov, n, funcs, cancel=None, abandon=False, eager=False, T=1, J=2, precancel=False, RJ=1, shielded_caller=False, cancel_outside_shield=False, scope_shield=False):
     """funcs[k]: 'ret' | 'raise' | 'ctx' | 'chk' (calls from_thread.check_cancelled()) | 'retexc' (RETURNS an exception instance)
       | 'cbs' (calls back: from_thread.run_sync(sync function)) | 'cba' (from_thread.run(coroutine function without a checkpoint))
       | 'cbc' (from_thread.run(coroutine function doing a shielded clean-up sleep)) -- for these the "thread" blocks on a
         concurrent.futures.Future while the loop runs on: the environment action runs between two loop cycles and keeps the loop
         cycling (VLoop.pump_until) until the future is done
     shielded_caller: the call is made directly inside a shielded scope, and it is THAT scope which gets cancelled
+    scope_shield: the callers' own scopes (the ones that get cancelled) are themselves shielded, e.g. move_on_after(..., shield=True)
     cancel_outside_shield: (with shielded_caller) the scope AROUND the shielded one is cancelled instead: the shield holds"""
     import anyio
     import anyio._backends._asyncio as B
@@ -174,7 +175,7 @@ def scn(sym, cov, n, funcs, cancel=None, abandon=False, eager=False, T=1, J=2, p
 
     async def main():
         lim = anyio.CapacityLimiter(total)
-        scopes = [CancelScope() for _ in range(n)]
+        scopes = [CancelScope(shield=scope_shield) for _ in range(n)]
         inners: dict = {}
 
         def in_flight():
@@ -361,6 +362,8 @@ def units(tier):
     add("1 cbc (from_thread.run, shielded clean-up) cancel", ["cbc"], cancel=0, J=1)
     add("1 cba precancel", ["cba"], cancel=0, precancel=True)
     add("2 cba+ret cancel0", ["cba", "ret"], cancel=0, RJ=0)
+    add("1 ret cancel, caller's scope itself shielded", ["ret"], cancel=0, J=2, scope_shield=True)
+    add("1 chk cancel, caller's scope itself shielded", ["chk"], cancel=0, J=1, scope_shield=True)
     add("2 ret+raise cancel0", ["ret", "raise"], cancel=0, RJ=0)
     add("2 ret+ret cancel1 abandon", ["ret", "ret"], cancel=1, abandon=True, RJ=0)
     add("2 ctx+chk cancel1", ["ctx", "chk"], cancel=1, RJ=0)
